@@ -33,7 +33,7 @@ func (c11) Assumptions() []string {
 
 func c11N(env run.Env) (n, passes, reps int) {
 	if env.Thorough {
-		return 80000, 8, 64
+		return 600000, 8, 64
 	}
 	return 5000, 3, 16
 }
